@@ -130,7 +130,7 @@ theorem lemma_close_transparent (sn : Sniff) (seen : Bool) (w : CW) (p : Base) (
         obtain ⟨hb, hcm, hpe⟩ := st0 h0
         have e : w.close sn = { w with decided := true, compress := false, buffer := [] } := by
           rw [nf]
-          simp [CW.close, CW.start, CW.restoreHeader, hcm, hb, h0]
+          simp [CW.close, CW.start, CW.restoreHeader, CW.restoreTrailers, hcm, hb, h0]
         rw [e]
         refine lemma_respOf_pass sn { w with decided := true, compress := false, buffer := [] } p outs rfl ⟨?_, fun _ => ?_⟩
         · simp only
